@@ -36,5 +36,5 @@ for id in "$@"; do
   [ $rc -eq 2 ] && echo "$out" | grep -a "INCONCL\|error" | head -3 | cut -c1-300 | sed 's/^/      | /'
 done
 rm -f /var/tmp/seedtry-$N.demo /var/tmp/seedtry-$N.tests
-# replays written by these runs belong to the seeded tree, not to /repo: remove them
-(cd /verif && git status --porcelain replays 2>/dev/null | awk '{print $2}' | xargs -r rm -rf)
+# evidence and replays of these runs belong to the seeded tree, not to /repo: the driver writes them under the scratch
+# work root (removed by the trap), never into /verif
